@@ -967,7 +967,8 @@ def _prediction_mismatches(res, run):
         for j, col in enumerate(tb["columns"]):
             if col in pred_cols + res_cols and col not in first:
                 first[col] = (tb, j)
-    noheader = any(tb["header_mode"] == "NOHEADER" for tb, _ in first.values())
+    # any NOHEADER table matters: its ID/TIME columns are merged first and fix the length of the frame
+    noheader = any(tb["header_mode"] == "NOHEADER" for tb in tabs)
     exp_pred = [col for col in pred_cols if col in first]
     exp_res = [col for col in res_cols if col in first]
     n = run["nrows"]
@@ -1044,7 +1045,7 @@ def check_predictions(c, d, res, run):
         except Exception:
             key = None
     for m in msgs[:2]:
-        c.violate(key, m + (" [first $TABLE with the column has NOHEADER; with a label line the values are read]" if key else ""))
+        c.violate(key, m + (" [a $TABLE of the run has NOHEADER; with a label line in that file the values are read]" if key else ""))
 
 
 # ------------------------------------------------------------------------------------------------ JSON
